@@ -70,6 +70,19 @@ CLAIMS = {
         note="Not decided (out of reach for static analysis): optimality against all competitors, agreement of the two estimators, "
              "monotone decrease as a numerical fact.",
         technique=TECH + "schema matching in affine / scalar-product normal form, table agreement with constant folding, CFG ordering"),
+    "C12": dict(
+        text="Decides the structural clauses for every mode, outcome count and history: (W1) every weighting mode an option class accepts "
+             "has a branch in the hook the loss class resolves to through its MRO, the hook's self-calls resolve, and each non-identity "
+             "branch must-writes the weight field; (W2) typestate: on every path of the configuration entry point and of the public "
+             "weight setter of the fast losses the derived extended weights are rebuilt after the last write of the weights; (W3) the "
+             "identity mode resets the weights; (W4) symbolic shapes of the inverse-covariance stores agree for every outcome count m; (W5) "
+             "value/gradient/Hessian read the same weight and data fields; (W6) the squared-error gradient and Hessian are the symbolic "
+             "derivatives of the value's bilinear normal form (generic and fast path), relative-entropy terms use the same (q, p) order "
+             "and weight factor.",
+        note="Not decided: the entropy helpers' formulas and clipping (partly pinned by the existing tests), numerical closeness of fast "
+             "and generic paths. Known findings F3 (mode accepted, unhandled) and F4 (identity does not reset weights).",
+        technique=TECH + "MRO-resolved table agreement, interprocedural must-write and fresh/stale typestate analysis on the CFG, "
+                         "symbolic shape inference, symbolic differentiation of bilinear normal forms"),
 }
 
 NOT_APPLICABLE = {
